@@ -71,25 +71,36 @@ impl Flags {
 type CharIndices<'a> =
     core::iter::Chain<bstr::CharIndices<'a>, core::iter::Once<(usize, usize, char)>>;
 
+type EnumCharIndices<'a> = core::iter::Peekable<core::iter::Enumerate<CharIndices<'a>>>;
+
 /// Mapping between byte and character indices.
-pub struct ByteChar<'a>(core::iter::Peekable<core::iter::Enumerate<CharIndices<'a>>>);
+pub struct ByteChar<'a>(&'a [u8], EnumCharIndices<'a>);
 
 impl<'a> ByteChar<'a> {
     pub fn new(s: &'a [u8]) -> Self {
+        Self(s, Self::iter(s))
+    }
+
+    fn iter(s: &'a [u8]) -> EnumCharIndices<'a> {
         let last = core::iter::once((s.len(), 0, '\0'));
-        Self(s.char_indices().chain(last).enumerate().peekable())
+        s.char_indices().chain(last).enumerate().peekable()
     }
 
     /// Convert byte offset to UTF-8 character offset.
     ///
-    /// This needs to be called with monotonically increasing values of `byte_offset`.
+    /// This is fastest when called with monotonically increasing values of `byte_offset`.
     fn char_of_byte(&mut self, byte_offset: usize) -> Option<usize> {
+        // capture groups are not necessarily visited in the order of their positions,
+        // e.g. when matching "ba" with `(?:(a)|(b))*`, so start over if we went too far
+        if !matches!(self.1.peek(), Some((_, (byte_i, ..))) if *byte_i <= byte_offset) {
+            self.1 = Self::iter(self.0);
+        }
         loop {
-            let (char_i, (byte_i, _, _char)) = self.0.peek()?;
+            let (char_i, (byte_i, _, _char)) = self.1.peek()?;
             if byte_offset == *byte_i {
                 return Some(*char_i);
             } else {
-                self.0.next();
+                self.1.next();
             }
         }
     }
